@@ -616,6 +616,27 @@ pub fn run(_op: &str, a: &Ints) -> Ints {
             }
             Ok(out)
         }),
+        // ---- C17: the product rule on manifolds, on the real code only: 26 a b names ->
+        //      n then n*n entries of  gradient1( M(a)_i * b + a * M(b)_i , names )   (row i),
+        //      n n then n*n entries of gradient2( a * b , names )
+        26 => guard(|| {
+            let a = read_dual2(&mut r);
+            let b = read_dual2(&mut r);
+            let ws = read_names(&mut r);
+            let ma = a.gradient1_manifold(ws.clone());
+            let mb = b.gradient1_manifold(ws.clone());
+            let mut out = vec![ws.len() as i128];
+            for i in 0..ws.len() {
+                let t = &(&ma[i] * &b) + &(&a * &mb[i]);
+                let g = t.gradient1(ws.clone());
+                out.extend(g.iter().map(|x| f2i(*x)));
+            }
+            let h = (&a * &b).gradient2(ws);
+            out.push(h.shape()[0] as i128);
+            out.push(h.shape()[1] as i128);
+            out.extend(h.iter().map(|x| f2i(*x)));
+            Ok(out)
+        }),
         // constructors (C20 reuse): 20 Dual::try_new(re, names, du) | 21 Dual2::try_new(re, names, du, dd)
         20 => guard(|| {
             let re = read_f(&mut r);
